@@ -375,7 +375,31 @@ def r8(R, repo):
         R.fail(kw, (f, wipe[0]), 'io.rename deletes the destination (`%s`) before renaming: between the two steps neither the old nor the new checkpoint exists under the final name, so a crash there loses the checkpoint that was being overwritten' % astu.short(wipe[0]))
       else:
         R.ok(kw, f)
-    if acts and any(a in must for a in acts):
+    # the refusal may live in a helper that receives dst and overwrite and raises
+    helper_ok = helper_seen = False
+    for x in astu.func_calls(f):
+      g_ = mod.funcs.get(astu.call_name(x) or '')
+      if g_ is None or not evid.raises_deep(repo, g_, 'AlreadyExistsError') or any(isinstance(a, ast.Starred) for a in x.args):
+        continue
+      helper_seen = True
+      gp = astu.params(g_.node)
+      bind = {gp[i]: astu.src(a) for i, a in enumerate(x.args) if i < len(gp)}
+      bind.update({k.arg: astu.src(k.value) for k in x.keywords if k.arg})
+      pd = [k for k, v in bind.items() if v == 'dst']
+      po = [k for k, v in bind.items() if v == 'overwrite']
+      if len(pd) == 1 and len(po) == 1:
+        cg_ = cfg_of(g_)
+        may_g, _ = evid.reach_env(cg_, {'os.path.exists(%s)' % pd[0]: True, po[0]: False})
+        hn = c.nodes_for(x)
+        if cg_.exit not in may_g and acts and hn and all(c.dominated(a, hn) for a in acts):
+          helper_ok = True
+    if helper_seen and not (len(raises) == 1 and len(tests) == 1):
+      tfk = len(tf) == 1 and astu.src(astu.kwarg(tf[0], 'overwrite')) == 'overwrite' and astu.is_const(astu.param_default(f.node, 'overwrite'), False)
+      if helper_ok and tfk:
+        R.ok(key, f)
+      else:
+        R.unsure(key, f, msg + ' (the refusal is delegated to a helper)')
+    elif acts and any(a in must for a in acts):
       R.fail(key, f, msg + ': `%s` is reached with dst existing and overwrite false' % astu.short([a for a in acts if a in must][0].stmt))
     elif ok:
       R.ok(key, f)
